@@ -396,6 +396,10 @@ fn parse_json_event(input: &[u8], output: &mut [u8]) -> Result<(usize, usize), E
         return Err(InnerError::BufferTooSmall(152).into());
     }
 
+    // Zero the padding, as from_parts does (events are compared and hashed byte-wise)
+    output[6] = 0;
+    output[7] = 0;
+
     // This tracks where we are currently looking in the input as we scan forward.
     // It is short for INput POSition.
     let mut inpos = 0;
